@@ -81,6 +81,7 @@ type FieldSpec struct {
 type DocSpec struct {
 	ID        B           `json:"id"`
 	IDLast    bool        `json:"idlast,omitempty"` // _id field visited last instead of first
+	IDDV      bool        `json:"iddv,omitempty"`   // the _id field is indexed with doc values
 	Composite []FieldSpec `json:"comp,omitempty"`
 	Fields    []FieldSpec `json:"fields,omitempty"`
 }
@@ -95,6 +96,7 @@ type WideSpec struct {
 	DV     bool `json:"dv"`
 	Stored bool `json:"stored"`
 	Gap    int  `json:"gap"` // docs with i%Gap==Gap-1 have no "wf" field at all (0 = none)
+	IDDV   bool `json:"iddv,omitempty"`
 }
 
 // VecWideSpec is a parametric description of many one-vector documents (so
@@ -159,12 +161,14 @@ func IDField(id B) FieldSpec {
 // EffFields returns the document's plain fields including the synthesized _id.
 func (d *DocSpec) EffFields() []FieldSpec {
 	out := make([]FieldSpec, 0, len(d.Fields)+1)
+	idf := IDField(d.ID)
+	idf.DV = d.IDDV
 	if !d.IDLast {
-		out = append(out, IDField(d.ID))
+		out = append(out, idf)
 	}
 	out = append(out, d.Fields...)
 	if d.IDLast {
-		out = append(out, IDField(d.ID))
+		out = append(out, idf)
 	}
 	return out
 }
@@ -185,7 +189,7 @@ const WideFieldName = "wf"
 func (w *WideSpec) expand() []DocSpec {
 	out := make([]DocSpec, 0, w.N)
 	for i := 0; i < w.N; i++ {
-		d := DocSpec{ID: B(fmt.Sprintf("w%06d", i))}
+		d := DocSpec{ID: B(fmt.Sprintf("w%06d", i)), IDDV: w.IDDV}
 		if w.Gap > 0 && i%w.Gap == w.Gap-1 {
 			out = append(out, d)
 			continue
